@@ -49,18 +49,21 @@ def key_variants(section, key):
     out = [('identical', key)]
     if section == 'Pair':
         a, b = key.split('-')
-        out += [('ws:A - B', '%s - %s' % (a, b)), ('ws:A -B', '%s -%s' % (a, b)), ('ws:tab', '%s\t-\t%s' % (a, b))]
+        out += [('ws:A - B', '%s - %s' % (a, b)), ('ws:A -B', '%s -%s' % (a, b)), ('ws:tab', '%s\t-\t%s' % (a, b)),
+                ('ws:no-break-space', '%s\u00a0-\u00a0%s' % (a, b)), ('ws:ideographic-space', '%s\u3000-%s' % (a, b))]
         if a != b:
             out += [('reversed', '%s-%s' % (b, a)), ('reversed+ws', '%s - %s' % (b, a))]
     elif section == 'EAM-Density' and '->' in key:
         a, b = key.split('->')
-        out += [('ws:A -> B', '%s -> %s' % (a, b)), ('ws:A ->B', '%s ->%s' % (a, b)), ('ws:tab', '%s\t->%s' % (a, b))]
+        out += [('ws:A -> B', '%s -> %s' % (a, b)), ('ws:A ->B', '%s ->%s' % (a, b)), ('ws:tab', '%s\t->%s' % (a, b)),
+                ('ws:no-break-space', '%s\u00a0->\u00a0%s' % (a, b))]
     elif section in ('EAM-Embed', 'EAM-Density'):
         out += [('ws:inner', key[0] + ' ' + key[1:])] if len(key) > 1 else []
     elif section == 'Potential-Form':
         label, rest = key.split('(', 1)
         params = rest.rstrip(')').split(',')
         out += [('ws:f(r, A)', '%s(%s)' % (label, ', '.join(params))), ('ws:f( r,A )', '%s( %s )' % (label, ','.join(params))),
+                ('ws:no-break-space', '%s(%s)' % (label, ',\u00a0'.join(params))),
                 ('other-parameter-names', '%s(r,%s)' % (label, ','.join('q%d' % i for i in range(len(params) - 1)))),
                 ('other-arity', '%s(%s,extra)' % (label, ','.join(params)))]
     return out
@@ -113,6 +116,12 @@ def cases(tier):
                     d2 = ini.copy()
                     d2.sections.insert(1, ['Table-Form:%s' % other, [['x', '0 1 2 3'], ['y', '9 9 9 9']]])
                     out.append(dict(model=mname, op=opn, pos='start', sep=':', sections=d2.to_json(), dup=['Table-Form:%s' % other, ''], orig=['', other]))
+        # the same new item added twice through `additional=` / --add-item (identical and whitespace-variant keys)
+        for sname, k1, k2 in (('Pair', 'Zz-Zz', 'Zz-Zz'), ('Pair', 'Zz-Zz', 'Zz - Zz'), ('EAM-Embed', 'Zz', 'Zz'), ('EAM-Density', 'Zz', 'Zz'),
+                              ('Potential-Form', 'zz(r,A)', 'zz(r, A)'), ('Potential-Form', 'zz(r,A)', 'zz(r,A)')):
+            if ini.section(sname):
+                out.append(dict(model=mname, op='added-twice:%s' % sname, pos='end', sep=':', sections=ini.to_json(), dup=[sname, k2], orig=[sname, k1],
+                                additional=[[sname, k1, ALT[sname] if sname != 'Potential-Form' else 'A*r'], [sname, k2, 'as.zero' if sname != 'Potential-Form' else '2*A*r']]))
         # a repeated section
         for sname in ('Pair', 'Potential-Form', 'EAM-Embed'):
             if ini.section(sname):
@@ -126,6 +135,34 @@ def render(case):
     ini = Ini.from_json(case['sections'])
     sep = ' %s ' % case.get('sep', ':')
     return ini.render(sep)
+
+
+def run_additional(case, text, what):
+    from atsim.potentials.config import ConfigParser, ConfigParserOverrideTuple as T
+    from atsim.potentials.config._common import ConfigurationException
+    viol = []
+    adds = [T(*a) for a in case['additional']]
+    try:
+        cp = ConfigParser(io.StringIO(text), additional=adds)
+        viol.append(dict(sig='duplicate-accepted:%s' % case['op'], msg='%s: ConfigParser(additional=%r) accepted both additions' % (what, case['additional']), detail={}))
+    except ConfigurationException:
+        pass
+    except Exception as e:  # noqa
+        viol.append(dict(sig='duplicate-internal-exception:%s:%s' % (case['op'], type(e).__name__), msg='%s: %s: %s' % (what, type(e).__name__, e), detail={}))
+    args = []
+    for a in case['additional']:
+        args += ['-a', '%s:%s=%s' % tuple(a)]
+    res = R.potable(text, args=args)
+    if res.exc is not None:
+        viol.append(dict(sig='duplicate-internal-exception:%s:%s' % (case['op'], type(res.exc).__name__), msg='potable %s: %s' % (' '.join(args), res.exc), detail={}))
+    elif not res.config_error:
+        viol.append(dict(sig='duplicate-accepted:%s' % case['op'], msg='potable %s on model %s: exit status %r' % (' '.join(args), case['model'], res.status), detail={}))
+    seen, uniq = set(), []
+    for v in viol:
+        if v['sig'] not in seen:
+            seen.add(v['sig'])
+            uniq.append(v)
+    return dict(outcome='rejected:added-twice' if not viol else 'violation', nontrivial=True, evals=2, violations=uniq)
 
 
 def run_case(case):
@@ -146,6 +183,8 @@ def run_case(case):
             viol.append(dict(sig='control-rejected', msg='potable refuses the un-duplicated model %s: %s' % (case['model'], res.stderr[-200:]), detail={}))
         return dict(outcome='ok:control', nontrivial=True, evals=2, violations=viol)
     what = '%s (%s, duplicate %r placed %s)' % (case['op'], case['model'], case['dup'], case['pos'])
+    if case.get('additional'):
+        return run_additional(case, text, what)
     try:
         tab = R.config_read(text)
         # accepted: find out which definition the tabulated function follows
